@@ -149,6 +149,9 @@ def gen_streams(tier):
 
     def assemble(lines, term=b"\n", final_newline=True):
         ctr[0] = 0          # markers need to be unique within one stream only
+        seen = [m for ln in lines for m in MARK.findall(ln)[:1]]
+        if len(seen) != len(set(seen)):
+            raise ToolError("stream generator reused a marker within one stream")
         data = term.join(lines)
         if final_newline and lines:
             data += term
@@ -178,6 +181,27 @@ def gen_streams(tier):
                                  nmea.line(tag=marker(i2), n=2, k=2, sid=1, payload=F.rand_armor(rnd, 5) + (b"X" if bad == b"X" else b"0")),
                                  nmea.line(tag=marker(i3), n=3, k=3, sid=1, payload=corpus.PAYLOADS[0][0]),
                                  valid_single()]))
+    # bytes in front of the start delimiter (white space included) make a line ill-formed; bytes after the
+    # checksum are ignored
+    for pre in (b" ", b"\t", b"\r", b"\x0c", b"  \t ", b"x", b"\xc1", b"\x00"):
+        streams.append(assemble([valid_single(), pre + valid_single(), valid_single() + b" ", valid_single() + b"\r",
+                                 valid_single()]))
+    # bytes that are not UTF-8 inside the checksummed span (channel, address): the checksum is taken over the
+    # bytes received, not over a re-encoded text
+    for hi in (b"\xc1", b"\xff", b"\x80", b"\xe2\x82"):
+        buf = F.rand_message(tb, rnd)
+        pay, fill = nmea.armor(buf.bytes(), buf.n)
+        kw = dict(payload=pay, fill=fill, chan=hi)
+        lossy = hi.decode("utf-8", "replace").encode("utf-8")
+        streams.append(assemble([valid_single(), nmea.line(tag=marker(nxt()), **kw), valid_single()]))
+        streams.append(assemble([valid_single(),
+                                 nmea.line(tag=marker(nxt()), ck=nmea.xor(nmea.body(**dict(kw, chan=lossy))), **kw),
+                                 valid_single()]))
+    # a rejected line between the fragments of a group does not disturb the group
+    for n in (2, 3, 4):
+        for pos in range(1, n):
+            g = group(n)
+            streams.append(assemble(g[:pos] + [noise()] + g[pos:] + [valid_single()]))
     g3 = group(3)
     streams.append(assemble([g3[0], g3[1], nmea.line(tag=marker(nxt()), n=2, k=3, sid=None, payload=b"0000"), valid_single()]))
     streams.append(assemble([(b"\\" + marker(nxt()) + b"\\" + s) if not s.startswith(b"\\") and s.startswith(b"!") else (b"junk " + marker(nxt()))
